@@ -139,30 +139,37 @@ pub(crate) mod verif_c14_ns {
     }
   }
 
+  // unwind bound = 4·W+3 (memcmp of the W-word bitmaps in the structural comparison), ≥ 11 for the
+  // word loop (≤ 8 iterations + 1) — every loop is fully unwound (unwinding assertions checked)
   macro_rules! ns_harnesses {
-    ($($w:literal $rt:ident $canon:ident $frt:ident;)*) => { $(
-      #[kani::proof] #[kani::unwind(11)]
-      #[kani::stub(alloc::fmt::format, stub_format)]
+    ($($w:literal $u:literal $rt:ident $canon:ident $frt:ident;)*) => { $(
+      #[kani::proof] #[kani::unwind($u)]
+      #[kani::stub(alloc::fmt::format, stub_format)] #[kani::stub(alloc::vec::Vec::with_capacity, stub_with_capacity)]
       fn $rt() { ns_roundtrip::<SequenceNumber, $w>(SequenceNumber::new(kani::any()), 8); }
-      #[kani::proof] #[kani::unwind(11)]
-      #[kani::stub(alloc::fmt::format, stub_format)]
+      #[kani::proof] #[kani::unwind($u)]
+      #[kani::stub(alloc::fmt::format, stub_format)] #[kani::stub(alloc::vec::Vec::with_capacity, stub_with_capacity)]
       fn $canon() { ns_canonical::<SequenceNumber, $w>(8); }
-      #[kani::proof] #[kani::unwind(11)]
-      #[kani::stub(alloc::fmt::format, stub_format)]
+      #[kani::proof] #[kani::unwind($u)]
+      #[kani::stub(alloc::fmt::format, stub_format)] #[kani::stub(alloc::vec::Vec::with_capacity, stub_with_capacity)]
       fn $frt() { ns_roundtrip::<FragmentNumber, $w>(FragmentNumber::new(kani::any()), 4); }
     )* }
   }
   pub fn stub_format(_a: core::fmt::Arguments<'_>) -> String { String::new() }
+  /// `Vec::with_capacity(n)` with a symbolic n (the word count decoded from the wire) makes CBMC
+  /// model an allocation of symbolic size and the grow path of every later `push` (25 GB, > 7 min
+  /// for two words).  Capacity is only a hint: the stub returns an empty Vec and lets `push` grow it
+  /// along concrete lengths.  Assumed: Vec's observable behaviour does not depend on its capacity.
+  pub fn stub_with_capacity<T>(_n: usize) -> Vec<T> { Vec::new() }
   ns_harnesses! {
-    0 c14_ns_rt_w0 c14_ns_canon_w0 c14_fns_rt_w0;
-    1 c14_ns_rt_w1 c14_ns_canon_w1 c14_fns_rt_w1;
-    2 c14_ns_rt_w2 c14_ns_canon_w2 c14_fns_rt_w2;
-    3 c14_ns_rt_w3 c14_ns_canon_w3 c14_fns_rt_w3;
-    4 c14_ns_rt_w4 c14_ns_canon_w4 c14_fns_rt_w4;
-    5 c14_ns_rt_w5 c14_ns_canon_w5 c14_fns_rt_w5;
-    6 c14_ns_rt_w6 c14_ns_canon_w6 c14_fns_rt_w6;
-    7 c14_ns_rt_w7 c14_ns_canon_w7 c14_fns_rt_w7;
-    8 c14_ns_rt_w8 c14_ns_canon_w8 c14_fns_rt_w8;
+    0 11 c14_ns_rt_w0 c14_ns_canon_w0 c14_fns_rt_w0;
+    1 11 c14_ns_rt_w1 c14_ns_canon_w1 c14_fns_rt_w1;
+    2 11 c14_ns_rt_w2 c14_ns_canon_w2 c14_fns_rt_w2;
+    3 15 c14_ns_rt_w3 c14_ns_canon_w3 c14_fns_rt_w3;
+    4 19 c14_ns_rt_w4 c14_ns_canon_w4 c14_fns_rt_w4;
+    5 23 c14_ns_rt_w5 c14_ns_canon_w5 c14_fns_rt_w5;
+    6 27 c14_ns_rt_w6 c14_ns_canon_w6 c14_fns_rt_w6;
+    7 31 c14_ns_rt_w7 c14_ns_canon_w7 c14_fns_rt_w7;
+    8 35 c14_ns_rt_w8 c14_ns_canon_w8 c14_fns_rt_w8;
   }
 
   // ---- ACKNACK / GAP / NACK_FRAG through the same back end (derive-generated impls, generic in
@@ -207,21 +214,21 @@ pub(crate) mod verif_c14_ns {
     }
   }
   macro_rules! sub_harnesses {
-    ($($w:literal $a:ident $g:ident $n:ident;)*) => { $(
-      #[kani::proof] #[kani::unwind(11)] #[kani::stub(alloc::fmt::format, stub_format)] fn $a() { acknack_rt::<$w>(); }
-      #[kani::proof] #[kani::unwind(11)] #[kani::stub(alloc::fmt::format, stub_format)] fn $g() { gap_rt::<$w>(); }
-      #[kani::proof] #[kani::unwind(11)] #[kani::stub(alloc::fmt::format, stub_format)] fn $n() { nackfrag_rt::<$w>(); }
+    ($($w:literal $u:literal $a:ident $g:ident $n:ident;)*) => { $(
+      #[kani::proof] #[kani::unwind($u)] #[kani::stub(alloc::fmt::format, stub_format)] #[kani::stub(alloc::vec::Vec::with_capacity, stub_with_capacity)] fn $a() { acknack_rt::<$w>(); }
+      #[kani::proof] #[kani::unwind($u)] #[kani::stub(alloc::fmt::format, stub_format)] #[kani::stub(alloc::vec::Vec::with_capacity, stub_with_capacity)] fn $g() { gap_rt::<$w>(); }
+      #[kani::proof] #[kani::unwind($u)] #[kani::stub(alloc::fmt::format, stub_format)] #[kani::stub(alloc::vec::Vec::with_capacity, stub_with_capacity)] fn $n() { nackfrag_rt::<$w>(); }
     )* }
   }
   sub_harnesses! {
-    0 c14_rt_acknack_w0 c14_rt_gap_w0 c14_rt_nackfrag_w0;
-    1 c14_rt_acknack_w1 c14_rt_gap_w1 c14_rt_nackfrag_w1;
-    2 c14_rt_acknack_w2 c14_rt_gap_w2 c14_rt_nackfrag_w2;
-    3 c14_rt_acknack_w3 c14_rt_gap_w3 c14_rt_nackfrag_w3;
-    4 c14_rt_acknack_w4 c14_rt_gap_w4 c14_rt_nackfrag_w4;
-    5 c14_rt_acknack_w5 c14_rt_gap_w5 c14_rt_nackfrag_w5;
-    6 c14_rt_acknack_w6 c14_rt_gap_w6 c14_rt_nackfrag_w6;
-    7 c14_rt_acknack_w7 c14_rt_gap_w7 c14_rt_nackfrag_w7;
-    8 c14_rt_acknack_w8 c14_rt_gap_w8 c14_rt_nackfrag_w8;
+    0 11 c14_rt_acknack_w0 c14_rt_gap_w0 c14_rt_nackfrag_w0;
+    1 11 c14_rt_acknack_w1 c14_rt_gap_w1 c14_rt_nackfrag_w1;
+    2 11 c14_rt_acknack_w2 c14_rt_gap_w2 c14_rt_nackfrag_w2;
+    3 15 c14_rt_acknack_w3 c14_rt_gap_w3 c14_rt_nackfrag_w3;
+    4 19 c14_rt_acknack_w4 c14_rt_gap_w4 c14_rt_nackfrag_w4;
+    5 23 c14_rt_acknack_w5 c14_rt_gap_w5 c14_rt_nackfrag_w5;
+    6 27 c14_rt_acknack_w6 c14_rt_gap_w6 c14_rt_nackfrag_w6;
+    7 31 c14_rt_acknack_w7 c14_rt_gap_w7 c14_rt_nackfrag_w7;
+    8 35 c14_rt_acknack_w8 c14_rt_gap_w8 c14_rt_nackfrag_w8;
   }
 }
